@@ -209,7 +209,7 @@ Section Main.
 
   Lemma includes_unfold : forall f stack file,
     includes' (S f) stack file =
-    do objs <- fs_get fs (nrm cwd file);
+    do objs <- fs_get fs (fs_key (nrm cwd file));
     if mems (nrm cwd file) stack then UErr k_cycle (chain_text (stack ++ [nrm cwd file])) 0
     else walks' (includes' f (stack ++ [nrm cwd file])) (Some (dirname (nrm cwd file))) objs.
   Proof. reflexivity. Qed.
@@ -219,7 +219,7 @@ Section Main.
   Proof.
     induction fuel; intros stack file t H. discriminate.
     rewrite includes_unfold in H.
-    destruct (fs_get fs (nrm cwd file)) eqn:G; cbn [bind] in H; try discriminate.
+    destruct (fs_get fs (fs_key (nrm cwd file))) eqn:G; cbn [bind] in H; try discriminate.
     destruct (mems (nrm cwd file) stack) eqn:M; try discriminate.
     eapply Ex_file; eauto. intros _. apply inc_mems_false; auto.
     eapply (proj2 (walks_sound true _ _ _ (IHfuel _))); eauto.
@@ -325,14 +325,32 @@ Section Main.
   Qed.
 
   (* ------------------------------------------------------------ termination *)
+  Lemma fs_key_cases : forall n, n = fs_key n \/ n = sl :: fs_key n.
+  Proof.
+    destruct n as [|c1 [|c2 r]]; cbn; auto.
+    destruct (is_sl c1) eqn:E1; cbn; auto. destruct (is_sl c2) eqn:E2; cbn; auto.
+    right. apply Ascii.eqb_eq in E1. subst. reflexivity.
+  Qed.
+
+  (* the names a file of the table can have on the stack *)
+  Definition names : list str := map fst fs ++ map (cons sl) (map fst fs).
+
+  Lemma key_in_names : forall n, In (fs_key n) (map fst fs) -> In n names.
+  Proof.
+    intros n H. unfold names. apply in_or_app. destruct (fs_key_cases n) as [E|E].
+    - left. rewrite E. auto.
+    - right. rewrite E. apply in_map. auto.
+  Qed.
+
   Theorem includes_fuel : forall fuel stack file,
-    NoDup stack -> incl stack (map fst fs) -> length fs < fuel + length stack ->
+    NoDup stack -> incl stack names -> 2 * length fs < fuel + length stack ->
     includes' fuel stack file <> Crash c_fuel.
   Proof.
     induction fuel; intros stack file ND IN LT.
-    - exfalso. pose proof (NoDup_incl_length ND IN) as L. rewrite map_length in L. lia.
+    - exfalso. pose proof (NoDup_incl_length ND IN) as L. unfold names in L.
+      rewrite app_length, !map_length in L. lia.
     - rewrite includes_unfold.
-      destruct (fs_get_cases fs (nrm cwd file)) as [[l [G I]]|[[pl G]|G]]; rewrite G; cbn [bind].
+      destruct (fs_get_cases fs (fs_key (nrm cwd file))) as [[l [G I]]|[[pl G]|G]]; rewrite G; cbn [bind].
       + destruct (mems (nrm cwd file) stack) eqn:M. discriminate.
         intro H.
         destruct (proj2 (walks_err_src _ _) _ _ H) as [[k [ln [H1 H2]]]|[x [H1 H2]]].
@@ -340,8 +358,9 @@ Section Main.
         * discriminate.
         * revert H2. apply IHfuel.
           -- apply NoDup_snoc; auto. apply inc_mems_false; auto.
-          -- intros y Hy. apply in_app_or in Hy. destruct Hy as [Hy|[Hy|[]]]; auto. subst; auto.
-          -- rewrite app_length. cbn. lia.
+          -- intros y Hy. apply in_app_or in Hy. destruct Hy as [Hy|[Hy|[]]]; auto. subst.
+             apply key_in_names; auto.
+          -- rewrite app_length. cbn [length]. lia.
       + discriminate.
       + intro H. apply nofile_not_fuel. congruence.
   Qed.
@@ -349,14 +368,14 @@ Section Main.
   Theorem includes_file_terminates : forall file, includes_file isc fs cwd file <> Crash c_fuel.
   Proof.
     intros. unfold includes_file, fuel0. apply includes_fuel.
-    constructor. intros x []. cbn. lia.
+    constructor. intros x []. cbn [length]. lia.
   Qed.
 
   Theorem includes_string_terminates : forall objs, includes_string isc fs cwd objs <> Crash c_fuel.
   Proof.
     intros objs H. unfold includes_string in H.
     destruct (proj2 (walks_err_src _ _) _ _ H) as [[k [ln [H1 H2]]]|[x [H1 H2]]]; try discriminate.
-    revert H2. apply includes_fuel. constructor. intros y []. unfold fuel0. cbn. lia.
+    revert H2. apply includes_fuel. constructor. intros y []. unfold fuel0. cbn [length]. lia.
   Qed.
 
   (* entry point: sound and complete w.r.t. acyclic derivations *)
@@ -383,7 +402,7 @@ Section Main.
   Qed.
 
   Lemma edge_intro : forall n objs x,
-    fs_get fs n = Ok objs -> In x (targets objs) ->
+    fs_get fs (fs_key n) = Ok objs -> In x (targets objs) ->
     edge' n (nrm cwd (resolve (Some (dirname n)) x)).
   Proof. intros. exists objs, x. auto. Qed.
 
@@ -395,7 +414,7 @@ Section Main.
   Proof.
     induction fuel; intros stack file tok ln H CH. discriminate.
     rewrite includes_unfold in H.
-    destruct (fs_get_cases fs (nrm cwd file)) as [[l [G I]]|[[pl G]|G]]; rewrite G in H; cbn [bind] in H.
+    destruct (fs_get_cases fs (fs_key (nrm cwd file))) as [[l [G I]]|[[pl G]|G]]; rewrite G in H; cbn [bind] in H.
     - destruct (mems (nrm cwd file) stack) eqn:M.
       + inversion H; subst. split; auto.
         exists (stack ++ [nrm cwd file]), stack, (nrm cwd file).
@@ -670,7 +689,7 @@ Section Cwd.
   Proof.
     intros cwd1 cwd2. induction fuel; intros stack file A. reflexivity.
     rewrite !includes_unfold. rewrite (nrm_abs cwd1 file A), (nrm_abs cwd2 file A).
-    destruct (fs_get fs (normpath (normpath file))) as [objs|k t l|c]; cbn [bind];
+    destruct (fs_get fs (fs_key (normpath (normpath file)))) as [objs|k t l|c]; cbn [bind];
       [|reflexivity|reflexivity].
     destruct (mems (normpath (normpath file)) stack); [reflexivity|].
     apply (proj2 (walks_ext _ _ _)). intros x _. apply IHfuel.
